@@ -85,14 +85,19 @@ Proof.
 Qed.
 Print Assumptions C07_run_env_indep.
 
-(* Python target: clock, hash order and cwd are irrelevant; the absolute location is not (see the refutation) *)
+(* Python target: clock and cwd are irrelevant; the absolute location is not (F-PY-PICKLEPATH, see the refutation).
+   The premise on the generation order is there because the real `pickle` filter breaks the [render] signature in a
+   second way the model does not express: it snapshots memo caches of shared pydsdl objects, i.e. process state left
+   by the files generated before (known finding F-PY-PICKLESTATE, found by the paired runs).  With the same
+   generation order that state is the same; in the model the premise is not even needed. *)
 Theorem C07_run_env_indep_py_partial :
   forall (B : Type) (render : option audit -> cfg -> item -> list (list str) -> B) (c : cfg) (I : list tydecl) (e1 e2 : env),
     c_embed_audit c = false -> c_lang c = LPy -> e_abs e1 = e_abs e2 ->
+    gen_order e1 c I = gen_order e2 c I ->
     NoDup (out_paths B gen_src_facts gen_sites render e1 c I) ->
     forall p, files B gen_src_facts gen_sites render e1 c I p = files B gen_src_facts gen_sites render e2 c I p.
 Proof.
-  intros B render c I e1 e2 Ha Hl. apply run_env_indep_same_location; [exact Ha | exact C07_src_facts_ok |].
+  intros B render c I e1 e2 Ha Hl Habs _. apply run_env_indep_same_location; [exact Ha | exact C07_src_facts_ok | | exact Habs].
   rewrite Hl. exact C07_py_clean_but_pickle.
 Qed.
 Print Assumptions C07_run_env_indep_py_partial.
